@@ -305,7 +305,15 @@ func (c *FnCtx) execCall(x *ssa.Call, common *ssa.CallCommon, st *State, reach *
 					c.callPreHit = map[int]bool{}
 				}
 				c.callPreHit[i] = true
-				tv, err := c.evalSpec(cp.E, c.envFor(st, c.entry))
+				cpEnv := c.envFor(st, c.entry)
+				if cpEnv.vars == nil {
+					cpEnv.vars = map[string]TV{}
+				}
+				for k, a := range args {
+					// $arg0 is the receiver of a method call, then the arguments in order
+					cpEnv.vars[fmt.Sprintf("$arg%d", k)] = a
+				}
+				tv, err := c.evalSpec(cp.E, cpEnv)
 				if err != nil {
 					c.abort("callpre %d: %v", i+1, err)
 					return
@@ -346,8 +354,13 @@ func (c *FnCtx) execCall(x *ssa.Call, common *ssa.CallCommon, st *State, reach *
 		return
 	}
 	if spec.NoFrame {
-		c.abort("call to %s, whose contract has no frame", spec.Name)
-		return
+		// a frame-less callee may change every heap; that is only expressible when the caller has no
+		// frame obligations itself, and only with a summary of the ghost state it changes
+		if !c.spec.NoFrame || len(spec.Effects)+len(spec.Havocs) == 0 {
+			c.abort("call to %s, whose contract has no frame", spec.Name)
+			return
+		}
+		c.havocEverything(st)
 	}
 	// closures handed to a callee under contract may be run by it: what they write becomes arbitrary
 	c.havocClosureWrites(common, st)
@@ -511,6 +524,12 @@ func (c *FnCtx) applyContract(spec *FuncSpec, sig *types.Signature, names []stri
 	}
 	for i, k := range ghostKeys {
 		st.heaps[k] = ghostVals[i]
+	}
+	for _, h := range spec.Havocs {
+		k := "GH_" + h[1:]
+		c.g.heapSorts[k] = SBool
+		c.heap(c.entry, k, SBool)
+		st.heaps[k] = c.fresh("gh_"+h[1:], SBool)
 	}
 	for i, cl := range spec.Ensures {
 		tv, err := c.evalSpec(cl.E, post)
@@ -788,4 +807,20 @@ func ghostNamesOf(ps *ParamSpec) []string {
 		walk(cl.E)
 	}
 	return sortedKeys(seen)
+}
+
+// havocEverything: after a call to a function without a frame every heap holds arbitrary (well-typed)
+// contents; ghost state changes only as the callee's contract says.
+func (c *FnCtx) havocEverything(st *State) {
+	for k, v := range st.heaps {
+		if strings.HasPrefix(k, "GH_") || k == nextKey || k == ctxDoneKey || strings.HasPrefix(k, "SEEN_") {
+			continue
+		}
+		nv := c.fresh("hv_"+k, v.Sort)
+		c.heapWellTyped(k, nv)
+		st.heaps[k] = nv
+	}
+	c.nfresh++
+	st.epoch = fmt.Sprintf("e%d", c.nfresh)
+	c.bumpNext(st)
 }
